@@ -21,16 +21,18 @@ from ..core import AnalysisError
 SE, SP, TD, ED = "state_engine", "state_engine_paths", "task_dispatcher", "event_dispatcher"
 RA, RB, ST, ARN, EXC = "rest_api", "rest_api_asyncio", "store", "arn", "asl_exceptions"
 AM, AMA, SL, J2 = "amqp_0_9_1_messaging", "amqp_0_9_1_messaging_asyncio", "statelint", "j2119"
+WE = "workflow_engine"
 N = "StateEngine.notify."
 ALL = "*"
 
 # property -> [(module, [qualified-name prefixes; "X$" = exactly X, not its nested functions; "*" = every function of the module])]
 SUBJECT = {
-    "C01": [(SE, ["StateEngine.notify", "StateEngine.change_state", "merge_result", "find_state", "parse_rfc3339_datetime", "StateEngine.end_execution"]), (SP, [ALL]), (EXC, [ALL])],
+    "C01": [(SE, ["StateEngine.notify", "StateEngine.change_state", "merge_result", "find_state", "parse_rfc3339_datetime", "StateEngine.end_execution", "StateEngine.update_execution_history"]), (SP, [ALL]), (EXC, [ALL])],
     "C02": [(SE, ["StateEngine.start_execution", "StateEngine.end_execution", N + "handle_terminal_state", N + "handle_error", "StateEngine.check_for_expired_branch_results",
                   "BranchMetadata.__init__", "StateEngine.notify$", "StateEngine.check_pending_results", "StateEngine.branch_has_terminated", N + "asl_state_collect_results",
                   N + "asl_state_Task", N + "asl_state_Task_delegate", N + "asl_state_Wait"]),
-            (TD, ["TaskDispatcher.handle_sfn_response", "TaskDispatcher.cancel_task", "TaskDispatcher.execute_task", "TaskDispatcher.handle_rpcmessage_response"]), ("metrics_summary", [ALL])],
+            (TD, ["TaskDispatcher.handle_sfn_response", "TaskDispatcher.cancel_task", "TaskDispatcher.execute_task", "TaskDispatcher.handle_rpcmessage_response"]), ("metrics_summary", [ALL]),
+            (AM, ["Connection.set_timeout", "Connection.clear_timeout"]), (AMA, ["Connection.set_timeout", "Connection.clear_timeout"])],
     "C03": [(ED, ["EventDispatcher.dispatch", "EventDispatcher.acknowledge", "EventDispatcher.publish", "EventDispatcher.heartbeat", "EventDispatcher.set_timeout", "EventDispatcher.clear_timeout"]),
             (SE, ["StateEngine.acknowledge_event_list", "StateEngine.check_pending_results", "StateEngine.branch_has_terminated", N + "asl_state_collect_results", N + "handle_terminal_state",
                   "StateEngine.notify$", "StateEngine.end_execution", "StateEngine.check_for_expired_branch_results", N + "asl_state_Wait", N + "asl_state_Task_delegate"]),
@@ -49,7 +51,8 @@ SUBJECT = {
     "C06": [(SE, [N + "asl_state_collect_results", "StateEngine.branch_has_terminated", "StateEngine.check_pending_results", "StateEngine.acknowledge_event_list", N + "handle_error",
                   N + "handle_terminal_state", N + "asl_state_Task_delegate", N + "asl_state_Wait"]),
             (TD, ["TaskDispatcher.cancel_task", "TaskDispatcher.branch_has_terminated", "TaskDispatcher.handle_rpcmessage_response", "TaskDispatcher.handle_sfn_response",
-                  "TaskDispatcher.execute_task.timeout_callback"]),
+                  "TaskDispatcher.execute_task.timeout_callback", "TaskDispatcher.execute_task.asl_service_rpcmessage", "TaskDispatcher.execute_task.asl_service_states_startExecution",
+                  "TaskDispatcher.set_rpcmessage_canceller", "TaskDispatcher.set_sfn_canceller", "TaskDispatcher.set_wait_canceller"]),
             (AM, ["Connection.set_timeout", "Connection.clear_timeout"]), (AMA, ["Connection.set_timeout", "Connection.clear_timeout"])],
     "C07": [(SE, [N + "handle_error", "StateEngine.change_state", N + "asl_state_Task", N + "asl_state_Parallel", N + "asl_state_Map", N + "asl_state_Parallel_delegate", N + "asl_state_Map_delegate",
                   N + "asl_state_collect_results", N + "asl_state_Task_delegate"]),
@@ -60,10 +63,10 @@ SUBJECT = {
             (RA, ["RestAPI.create_app.handle_post.aws_api_StartExecution"]), (RB, ["RestAPI.create_app.handle_post.aws_api_StartExecution", "RestAPI.create_app.handle_post.aws_api_StartSyncExecution"]),
             (AM, ["Connection.set_timeout", "Connection.clear_timeout"]), (AMA, ["Connection.set_timeout", "Connection.clear_timeout"])],
     "C09": [(SE, ["StateEngine.update_execution_history", "StateEngine.notify$", "StateEngine.change_state", "StateEngine.start_execution", "StateEngine.end_execution", N + "handle_terminal_state",
-                  N + "asl_state_collect_results", "StateEngine.check_pending_results"]),
+                  N + "asl_state_collect_results", "StateEngine.check_pending_results", "StateEngine.broadcast_notification"]),
             (RA, ["RestAPI.create_app.handle_post.aws_api_GetExecutionHistory"]), (RB, ["RestAPI.create_app.handle_post.aws_api_GetExecutionHistory"])],
-    "C10": [(RA, [ALL]), (RB, [ALL]), (SE, ["StateEngine.start_execution"])],
-    "C11": [(SE, ["StateEngine.broadcast_notification", "StateEngine.end_execution", "StateEngine.start_execution", "StateEngine.update_execution_history"]), (ED, ["EventDispatcher.broadcast"]),
+    "C10": [(RA, [ALL]), (RB, [ALL]), (SE, ["StateEngine.start_execution"]), (ST, ["SimpleStore", "JSONStore"])],
+    "C11": [(SE, ["StateEngine.broadcast_notification", "StateEngine.end_execution", "StateEngine.start_execution", "StateEngine.update_execution_history", "BranchMetadata.__init__", "StateEngine.check_for_expired_branch_results"]), (ED, ["EventDispatcher.broadcast"]),
             (RA, ["RestAPI.create_app.handle_post.aws_api_DescribeExecution", "RestAPI.create_app.handle_post.aws_api_ListExecutions", "RestAPI.create_app.handle_post.aws_api_GetExecutionHistory"]),
             (RB, ["RestAPI.create_app.handle_post.aws_api_DescribeExecution", "RestAPI.create_app.handle_post.aws_api_ListExecutions", "RestAPI.create_app.handle_post.aws_api_GetExecutionHistory"]),
             (TD, ["TaskDispatcher.handle_sfn_response"])],
@@ -74,21 +77,21 @@ SUBJECT = {
                   "TaskDispatcher.execute_task.asl_service_InvalidService", "TaskDispatcher.execute_task.timeout_callback", "TaskDispatcher.handle_sfn_response", "TaskDispatcher.cancel_task", "TaskDispatcher.handle_rpcmessage_response", "TaskDispatcher.remove_canceller",
                   "TaskDispatcher.set_sfn_canceller", "TaskDispatcher.set_rpcmessage_canceller", "TaskDispatcher.set_wait_canceller", "TaskDispatcher.handle_unroutable_rpcmessage"]),
             (RB, ["RestAPI.create_app.handle_post.aws_api_SendTaskSuccess", "RestAPI.create_app.handle_post.aws_api_SendTaskFailure", "RestAPI.create_app.handle_post.aws_api_StartSyncExecution"]),
-            (SE, ["StateEngine.end_execution", "StateEngine.start_execution", N + "asl_state_Task_delegate"])],
+            (SE, ["StateEngine.end_execution", "StateEngine.start_execution", N + "asl_state_Task_delegate"]), (WE, [ALL]), (ED, ["EventDispatcher.__init__"]), (TD, ["TaskDispatcher.start", "TaskDispatcher.start_asyncio"])],
     "C16": [(SE, ["StateEngine.change_state", "StateEngine.end_execution", "StateEngine.notify$", N + "asl_state_Task_delegate", N + "asl_state_collect_results"]),
             (TD, ["TaskDispatcher.handle_rpcmessage_response"]),
             (RA, ["valid_name", "RestAPI.create_app.handle_post.aws_api_StartExecution", "RestAPI.create_app.handle_post.aws_api_CreateStateMachine", "RestAPI.create_app.handle_post.aws_api_UpdateStateMachine",
                   "RestAPI.create_app$"]),
             (RB, ["valid_name", "RestAPI.create_app.handle_post.aws_api_StartExecution", "RestAPI.create_app.handle_post.aws_api_StartSyncExecution", "RestAPI.create_app.handle_post.aws_api_CreateStateMachine",
                   "RestAPI.create_app.handle_post.aws_api_UpdateStateMachine", "RestAPI.create_app.handle_post.aws_api_SendTaskSuccess", "RestAPI.create_app.handle_post.aws_api_SendTaskFailure",
-                  "RestAPI.create_app$"])],
+                  "RestAPI.create_app$"]), (WE, [ALL])],
     "C17": [(ARN, [ALL]), (RA, ["valid_name", "valid_role_arn", "valid_state_machine_arn", "valid_execution_arn", "RestAPI.create_app.handle_post.aws_api_StartExecution",
                                "RestAPI.create_app.handle_post.aws_api_CreateStateMachine"]),
             (RB, ["valid_name", "valid_role_arn", "valid_state_machine_arn", "valid_execution_arn", "RestAPI.create_app.handle_post.aws_api_StartExecution",
                   "RestAPI.create_app.handle_post.aws_api_StartSyncExecution", "RestAPI.create_app.handle_post.aws_api_CreateStateMachine"]),
             (SE, ["StateEngine.end_execution", "StateEngine.update_execution_history", "StateEngine.check_for_expired_branch_results", "StateEngine.start_execution", "StateEngine.broadcast_notification",
                   "StateEngine.notify$"]),
-            (TD, ["TaskDispatcher.execute_task.asl_service_states_startExecution"])],
+            (TD, ["TaskDispatcher.execute_task.asl_service_states_startExecution"]), (ED, ["EventDispatcher.dispatch", "EventDispatcher.publish"])],
     "C18": [(SL, [ALL]), (J2, [ALL]), (ED, ["EventDispatcher.dispatch", "EventDispatcher.heartbeat"]), (SE, ["StateEngine.notify$", "find_state", "BranchMetadata.__init__",
                                                                                                              "StateEngine.check_for_expired_branch_results"])],
     "C19": [(AM, [ALL]), (AMA, [ALL]), (ED, ["EventDispatcher.start", "EventDispatcher.start_asyncio", "EventDispatcher.publish", "EventDispatcher.broadcast", "EventDispatcher.dispatch"]),
